@@ -225,12 +225,12 @@ def gen(rng, tier):
 
     # ---------------- model-level: multi_pairing (Miller loop + final exponentiation) ----------------
     lengths = [0, 1, 1, 3, 4, 5, 8, 9]
-    reps = 1 if quick else 6
+    reps = 5 if quick else 60
     for e in MODELLED:
         C = curves[e]
         tag = ENGINES[e][3]
         for _ in range(reps):
-            for n in (lengths if not quick or e in (0, 2) else [0, 1, 4, 5]):
+            for n in lengths:
                 mode = rng.randrange(4)
                 pairs, pat = [], []
                 for i in range(n):
@@ -247,7 +247,7 @@ def gen(rng, tier):
                     pat.append(cs + ':' + ct)
                 yield 'multi_pairing', C.head() + [[mode]] + pairs, '%s/n%d/mode%d/%s' % (tag, n, mode, ','.join(pat))
         # surviving-pair counts at the chunk thresholds, identities interleaved
-        for n, ids in ([(4, 1), (5, 2)] if quick else [(3, 1), (4, 1), (4, 3), (5, 1), (5, 4), (8, 2), (9, 3)]):
+        for n, ids in [(3, 1), (4, 1), (4, 3), (5, 1), (5, 4), (8, 2), (9, 3)] * (1 if quick else 6):
             slots = ['k'] * n + ['i'] * ids
             rng.shuffle(slots)
             pairs = []
@@ -269,7 +269,7 @@ def gen(rng, tier):
         yield 'multi_pairing', C.head() + [[2]] + [C.pair_arg(s, t), C.pair_arg(s, t)], tag + '/equal_pairs'
         yield 'multi_miller_loop', C.head() + [[0]] + [C.pair_arg(1, 1)], tag + '/generators'
         # ---------------- g2_prepare ----------------
-        for t, ct in [(0, 'Q0'), (1, 'gen'), (2, '2'), (C.r - 1, 'r-1')] + [nz_scalar(rng, C.r) for _ in range(1 if quick else 8)]:
+        for t, ct in [(0, 'Q0'), (1, 'gen'), (2, '2'), (C.r - 1, 'r-1')] + [nz_scalar(rng, C.r) for _ in range(4 if quick else 40)]:
             yield 'g2_prepare', C.head() + [[0], C.g2_arg(t)], tag + '/' + ct
         # ---------------- final_exp on arbitrary field elements ----------------
         p = C.prm['p']
@@ -277,7 +277,7 @@ def gen(rng, tier):
                ([rng.randrange(p)] + [0] * 11, 'prime_subfield'),
                ([rng.randrange(p) for _ in range(6)] + [0] * 6, 'c1_zero'),
                ([0] * 6 + [rng.randrange(p) for _ in range(6)], 'c0_zero')]
-        els += [([rng.randrange(p) for _ in range(12)], 'dense') for _ in range(2 if quick else 20)]
+        els += [([rng.randrange(p) for _ in range(12)], 'dense') for _ in range(8 if quick else 120)]
         for v, cl in els:
             yield 'final_exp', C.head() + [[0], v], tag + '/' + cl
 
@@ -288,7 +288,7 @@ def gen(rng, tier):
         tag = ENGINES[e][3]
         fam = ENGINES[e][2]
         big = e in (4, 6, 7, 8)
-        k = (1 if quick else 8) if big else (2 if quick else 20)
+        k = (2 if quick else 12) if big else (5 if quick else 40)
         yield 'generators_nondegenerate', [[e]], tag
         for _ in range(k):
             s, cs = nz_scalar(rng, r)
@@ -315,9 +315,9 @@ def gen(rng, tier):
         yield 'pairing_with_identity_is_one', [[e], [s, 0]], ('mnt_g2_identity/' + tag if fam in (2, 3) else tag + '/Q0')
         yield 'pairing_with_identity_is_one', [[e], [0, 0]], ('mnt_g2_identity_both/' + tag if fam in (2, 3) else tag + '/PQ0')
         # multi-pairing vs product of pairings
-        ns = [0, 1, 3, 4, 5, 9] if quick else [0, 1, 2, 3, 4, 5, 7, 8, 9, 12, 13]
+        ns = [0, 1, 3, 4, 5, 8, 9] if quick else [0, 1, 2, 3, 4, 5, 7, 8, 9, 12, 13] * 3
         if big and quick:
-            ns = [0, 1, 4, 5]
+            ns = [0, 1, 4, 5, 9]
         for n in ns:
             for with_ids in ([False] if n == 0 else [False, True]):
                 ss, ts = [], []
